@@ -7,6 +7,8 @@ package main
 import (
 	"flag"
 	"fmt"
+	"io"
+	"log"
 	"os"
 	"strings"
 	"time"
@@ -16,6 +18,10 @@ var runners = map[string]func(*Ctx){
 	"C01": runC01,
 	"C02": runC02,
 	"C03": runC03,
+	"C04": runC04,
+	"C08": runC08,
+	"C09": runC09,
+	"C10": runC10,
 	"C06": runC06,
 	"C07": runC07,
 	"C11": runC11,
@@ -43,6 +49,8 @@ func main() {
 	ops := flag.String("ops", "", "comma-separated ops the driver implements")
 	iso := flag.Bool("isolated", false, "run one call read from stdin in this fresh process and print its result (C16 reference runs)")
 	flag.Parse()
+	// the package logs every error it continues on (ContinueOnError) through the standard logger
+	log.SetOutput(io.Discard)
 	if *iso {
 		isolatedMain()
 		return
